@@ -1120,11 +1120,17 @@ class AdaptiveDistance(Discrepancy):
         """
         data = np.column_stack(data)
 
-        self.state['store'][0] += len(data)
-        delta_1 = data - self.state['store'][1]
-        self.state['store'][1] += np.sum(delta_1, axis=0) / self.state['store'][0]
-        delta_2 = data - self.state['store'][1]
-        self.state['store'][2] += np.sum(delta_1 * delta_2, axis=0)
+        # merge the batch through its own mean (Chan et al.): deviations are taken from a
+        # nearby mean, so a location that is large compared to the spread does not cancel
+        n_old = self.state['store'][0]
+        n_batch = len(data)
+        n_new = n_old + n_batch
+        batch_mean = np.sum(data, axis=0) / n_batch
+        delta = batch_mean - self.state['store'][1]
+        self.state['store'][0] = n_new
+        self.state['store'][1] += delta * n_batch / n_new
+        self.state['store'][2] += np.sum((data - batch_mean)**2, axis=0) + \
+            delta**2 * n_old * n_batch / n_new
 
         self.state['scale'] = np.sqrt(self.state['store'][2]/self.state['store'][0])
 
